@@ -21,5 +21,6 @@ func moreGens() []struct {
 		{"GenCli.v", genCli},
 		{"GenSolver.v", genSolver},
 		{"GenAccept.v", genAccept},
+		{"GenAssemble.v", genAssemble},
 	}, extraGens...)
 }
